@@ -42,6 +42,54 @@ CHECKS = {
     "C24": ("exploration", "runtime monitoring: fault injection inside coroutines (null/wild access, runaway recursion, faults with the stack pointer moved by inline asm) with result/message oracle and survival of siblings",
             "Each fault kind after 0-5 suspends must yield Error with the message the stack-pointer position calls for (boundary positions top, top-16, bottom, bottom-16, heap), the coroutine stays failed, healthy coroutines before/after are unaffected, the process survives.",
             "Segments include their guard page; x86-64 Linux only; not under ASan/valgrind.", "DESIGN.md §3 C24", "wl-core/stack"),
+    "C01": ("exploration", "runtime monitoring: exactly-once counters per task id + stranded detector with heartbeat probes + per-call CPU watchdog on submitters, one process per configuration",
+            "Every task bumps its own atomic counter; after all submitters returned every counter must be 1, judged over a configuration matrix (loops x submitter threads x burst sizes x priorities x bodies x pool sizes). 'Stranded' is restated as bounded progress: nothing new runs for 3 s while heartbeat probes do. Sampling of schedules only.",
+            "Sampled schedules; 3 s no-progress window; submit calls judged by CPU time.", "DESIGN.md §3 C01", "wl-core/loops"),
+    "C02": ("exploration", "runtime monitoring: per-join result/latency oracle with finish stamps; lost-wakeup window forced through the join:after_first_check pause hook",
+            "Each join must return its own task's value or panic message, TimedOut only if the task had not finished, and within 1 s of max(call, finish); configurations over 1-4 loops and 1-16 joiner threads, incl. two-step joins (first join gives up early) and a deterministic schedule that puts the completion between the waiter's check and its registration.",
+            "1 s promptness slack vs 3 s timeouts; C-ABI wrappers not driven separately.", "DESIGN.md §3 C02", "wl-core/loops"),
+    "C11": ("exploration", "runtime monitoring: live-coroutine registry from the co_new/co_drop hook compared with get_running_size() at quiescent points",
+            "After every scheduling pass the reported running size must equal the number of live worker coroutines of the pool and stay <= max; after all work is done or cancelled it returns to the idle level and stop() is prompt. Hundreds of generated task programs with cancel requests and self-cancelling tasks.",
+            "min_size 0 only (idle core workers never yield inside a pass without the preemptive feature).", "DESIGN.md §3 C11", "wl-core/pool"),
+    "C12": ("exploration", "runtime monitoring: lifecycle oracle over EventLoops::stop racing a submitter, and over standalone pool histories with a waiting thread",
+            "stop() success implies every task accepted before it began has run; later submissions are rejected; the state only moves forward; a waiter on a task that never runs is released with an error right after stop instead of sleeping out its own timeout.",
+            "One submitting thread at a time at runtime level.", "DESIGN.md §3 C12", "wl-core/loops+pool"),
+    "C13": ("exploration", "runtime monitoring: start/end stamps + join outcomes around a cancelled target in each phase; cancel:before_signal pause hook forces the lookup/signal window",
+            "Cancelling a queued / running / suspended task must leave every other task untouched (all start, end and join with their own value), a queued target never starts and its waiter is settled. The lookup-then-signal window is forced deterministically.",
+            "Single loop, single submitting thread. One known finding (signal lands on another coroutine).", "DESIGN.md §3 C13", "wl-core/loops"),
+    "C14": ("exploration", "runtime monitoring: elapsed-time oracle on CLOCK_MONOTONIC (min of 3 attempts) + native-call differential for invalid arguments, each case able to kill its own process",
+            "Every hooked timed wait x context x duration (incl. unit boundaries, 4.4 s overflow probes, maximal values) must not return early and must return within 300 ms slack on the fastest of three attempts; invalid arguments must answer like the native call.",
+            "Core entry points with real libc underneath; the dylib's interposed symbols forward to them.", "DESIGN.md §3 C14", "wl-core/sys"),
+    "C15": ("exploration", "runtime monitoring: completion-time ratio oracle (N sleepers finish in ~d, not N*d) + sibling progress counter + late-arrival latency",
+            "N blocked tasks on one loop must finish within max(2d, d+300 ms) while a computing sibling keeps advancing; a task submitted while the only worker is parked must not wait for the sleeper.",
+            "Core entry points, not the dylib interposition layer.", "DESIGN.md §3 C15", "wl-core/loops"),
+    "C16": ("fault_enumeration", "fault injection: scripted kernel through the fn_ptr seam, bounded-exhaustive response scripts x buffer shapes x calls x modes, byte-accounting oracle; ASan overlay in thorough",
+            "Every script of kernel responses up to length 2 (quick) / 3 (thorough) over {partials around buffer boundaries, full, EAGAIN, EINTR, EOF/EPIPE, ECONNRESET, timeout} x 8 buffer shapes x 10 calls x blocking/non-blocking is executed; return value, errno and byte placement are compared with what the scripted kernel moved. Longer scripts and coroutine context are sampled.",
+            "The scripted kernel replaces only the transfer; sockets, fcntl, readiness waits and options are real.", "DESIGN.md §3 C16", "wl-core/sys"),
+    "C17": ("fault_enumeration", "fault injection: same scripted kernel, oracle evaluated inside every inner call on the iovec list and element count it is handed; ASan overlay in thorough",
+            "Inside each scripted inner call the (pointer,length) list must equal the caller's unfilled remainder and the element count must fit the array; same bounded-exhaustive grid as C16.",
+            "Zero-length entries at the frontier may or may not be passed.", "DESIGN.md §3 C17", "wl-core/sys"),
+    "C18": ("exploration", "runtime monitoring: real non-blocking sockets (EAGAIN-latency + F_GETFL before/after) for every hooked socket call incl. accept/connect, plus the scripted-kernel grid with a would-block-ends-the-call oracle",
+            "A caller-set O_NONBLOCK descriptor with nothing ready must return -1/EAGAIN in < 400 ms (the peer acts only after 700 ms) and every outcome must leave F_GETFL unchanged, in threads and coroutines; the scripted grid adds every partial/error/timeout outcome.",
+            "Unix stream / UDP sockets on this kernel.", "DESIGN.md §3 C18", "wl-core/sys"),
+    "C19": ("exploration", "runtime monitoring: bounded-exhaustive option/IO/close/reuse histories with a model of the socket's options and process-survival oracle",
+            "All histories up to length 4 (quick) / 6 (thorough) over set RCVTIMEO/SNDTIMEO, limit queries, a timed-out hooked recv, close + descriptor reuse; limits must equal the model (cross-checked with getsockopt), the recv must take about the limit, the process must not abort.",
+            "Options set through the hooked setsockopt.", "DESIGN.md §3 C19", "wl-core/sys"),
+    "C20": ("exploration", "runtime monitoring: wake-latency oracle + resume-by-token observer hook (token, hit/miss) over concurrent readiness waiters",
+            "A waiter whose descriptor became ready must return within 1 s of readiness (timeout is 3 s) and the loop must have seen a readiness event carrying its coroutine id; never-ready waiters must not return early; several waits inside one call.",
+            "epoll backend, 64-bit.", "DESIGN.md §3 C20", "wl-core/loops"),
+    "C21": ("exploration", "runtime monitoring: model of outstanding interest vs the kernel's registrations read from /proc/self/fdinfo after every operation",
+            "Seeded histories of wait/del/shutdown/close+reuse over 3 sockets, from threads and tasks, 1 and 2 loops; after each step the union of epoll registrations must equal the model. Multi-loop disagreements are known findings.",
+            "fdinfo is ground truth; 'outstanding' = added and not yet removed.", "DESIGN.md §3 C21", "wl-core/loops"),
+    "C22": ("exploration", "runtime monitoring under the preemptive build: CPU-time bound on busy coroutines before siblings run, no Syscall->Suspend transition, checksum equality with a plain-thread reference, survival with many scheduling threads",
+            "Busy chains must be preempted (siblings run before 500 ms CPU), a coroutine in a Syscall state must not be suspended, preempted computations must produce reference results; with 4-12 scheduling threads the process dies (known finding).",
+            "Linux x86-64 SIGURG preemption; cases without an observed preemption are inconclusive.", "DESIGN.md §3 C22", "wl-core/preempt"),
+    "C27": ("exploration", "runtime monitoring under the io_uring build: unique-content own-result oracle per call, expected-errno oracle for negative completions, lost-completion detector; uring:after_submit pause hook forces the submit/register window",
+            "Concurrent coroutine and thread callers each check that every pwrite/pread/send/recv/mkdirat returns its own byte count, data or errno; a caller still blocked 5 s after the last completion is a lost completion.",
+            "Kernel 6.18 io_uring; positional reads on sockets are excluded (io_uring semantics differ).", "DESIGN.md §3 C27", "wl-core/uring"),
+    "C28": ("exploration", "runtime monitoring: arithmetic oracles over boundary tables + seeded inputs; step-bounded execution of get_slices on a helper thread",
+            "get_timeout_time must lie in [now+d] and saturate exactly when now+d overflows; get_slices pieces must each fit, be non-empty, sum to the total and count ceil(total/slice) without looping; zero socket limit means unlimited.",
+            "Wall clock does not jump during a case.", "DESIGN.md §3 C28", "wl-core/sys"),
 }
 
 NOT_YET = "check not built yet in this session (work in progress; see DESIGN.md §3 for the planned monitor)"
@@ -94,7 +142,7 @@ NA = {}
 ENGINES = [
     {"name": "wl-pure/queues", "path": "/verif/wl-pure", "serves_properties": ["C03", "C04", "C05", "C06", "C25", "C26"],
      "kind_free_text": "Rust workload binary over the real work_steal.rs/ordered_work_steal.rs (#[path] include), run natively, under Miri and under TSan; online oracles"},
-    {"name": "wl-core", "path": "/verif/wl-core", "serves_properties": ["C07", "C08", "C09", "C10", "C23", "C24", "C25"],
+    {"name": "wl-core", "path": "/verif/wl-core", "serves_properties": ["C01", "C02", "C05", "C07", "C08", "C09", "C10", "C11", "C12", "C13", "C14", "C15", "C16", "C17", "C18", "C19", "C20", "C21", "C22", "C23", "C24", "C25", "C27", "C28"],
      "kind_free_text": "Rust workload binaries linked against /repo/core (path dependency, feature verif): generated programs + online oracles; rebuilt under ASan for thorough tiers"},
     {"name": "driver", "path": "/verif/check", "serves_properties": [],
      "kind_free_text": "python3 driver: builds, fans seeded case ranges out over processes, resumes after crashes/hangs, matches signatures against known_findings.json, writes evidence/replay"},
